@@ -269,7 +269,11 @@ func ruleR9_3(r *Run) {
 		// inline extraction / insertion: shifts 8-… and 16-…
 		if inline || packs {
 			has8, has16 := false, false
-			for _, g := range withClosures(f) {
+			var scope []*ssa.Function // the insertion may sit in a helper (putPackedValue, the mirror of getPackedValue)
+			for _, top := range withHelpers(f) {
+				scope = append(scope, withClosures(top)...)
+			}
+			for _, g := range scope {
 				for _, b := range g.Blocks {
 					for _, in := range b.Instrs {
 						if bo, ok := in.(*ssa.BinOp); ok && bo.Op == token.SUB {
@@ -461,6 +465,27 @@ func ruleR9_4(r *Run) {
 			ps = append(ps, p)
 		}
 		sort.Strings(ps)
+		// the row stride of the voxel array: X in `X − SubBlockSize` (the step from the end of a sub-block row to the
+		// next row); the plane step has to be built from the same dimension of the same size
+		rowPaths := map[string]bool{}
+		for _, b := range enc.Blocks {
+			for _, in := range b.Instrs {
+				bo, ok := in.(*ssa.BinOp)
+				if !ok || bo.Op != token.SUB {
+					continue
+				}
+				if k, isK := constInt(bo.Y); !isK || k != 8 {
+					continue
+				}
+				if p := normPath(valuePath(bo.X)); p != "" {
+					rowPaths[p] = true
+				}
+			}
+		}
+		if len(ps) == 1 && len(rowPaths) > 0 {
+			r.check(rowPaths[ps[0]], "labels.encodeBlock:plane-stride-is-the-array-row-stride", "the plane step is built from the array's row length ("+ps[0]+")",
+				"the encoder steps to the next z-plane of a sub-block with a stride built from "+ps[0]+" while it steps from row to row with the array's own row length: for a sub-volume wider than one block the two passes read other voxels than the block's", w.fpos(enc))
+		}
 		r.check(len(ps) == 1 && paths[ps[0]] >= 2, "labels.encodeBlock:passes-use-one-plane-stride", "the label-collecting pass and the packing pass step to the next plane with the same stride: "+strings.Join(ps, ","),
 			"the two passes of the encoder advance to the next z-plane with different strides ("+strings.Join(ps, " vs ")+"): the indices are packed for other voxels than the labels were collected from", w.fpos(enc))
 	}
